@@ -5,4 +5,5 @@ open Irismod.Props.Tie Irismod.Gen.PureTokenFee Irismod.Sdk
 #print axioms token_taxOf_eq_translation
 #print axioms token_mint_and_issue_fee_steps
 #print axioms MintToken_cap_eq_model
+#print axioms EditToken_cap_eq_model
 #eval s!"nonvacuous {GetTokenMintFee_mintFee_1 ⟨"stake", 23622⟩ ⟨100000000000000000⟩ == some 2362 && (feeHandler_communityTaxCoin_1 ⟨"stake", 23622⟩ ⟨400000000000000000⟩).map (·.amount) == some 9448}"
